@@ -389,8 +389,8 @@ theorem default_safe_set_is_shared_by_reference :
 
 /-- **rpyc never writes the defaults nor a caller's dict**: after any history, `DEFAULT_CONFIG` (dict and set object)
 and every settings-dict object of the application hold exactly what the application itself put there. -/
-theorem shared_objects_never_written (w : HWorld) (evs : List HEvent) (r : Ref) (hr : ∀ k, r ≠ .own k)
-    (happ : ∀ e ∈ evs, ∀ ov, e ≠ .editDict r ov) (hset : ∀ e ∈ evs, e.fair = true) :
+theorem shared_objects_never_written (w : HWorld) (evs : List HEvent) (r : Ref) (hr : r.appOwned = true)
+    (happ : ∀ e ∈ evs, e.mayEdit r = false) (hset : ∀ e ∈ evs, e.fair = true) :
     (hrun Modes.measured w evs).dicts r = w.dicts r ∧ (hrun Modes.measured w evs).dfltSet = w.dfltSet := by
   rw [measured_modes_are_good]
   exact ⟨hrun_good_sharedDicts evs w r hr happ, hrun_good_dfltSet evs w hset⟩
@@ -447,45 +447,90 @@ theorem open_takes_snapshot (w : HWorld) (i d : Nat) (classic : Bool) (hf : w.co
   rw [measured_modes_are_good]
   simp [hstep, hf, openConn_good_conns, openConn_good_dicts, goodOwnDict]
 
-/-! #### the variants that share state violate the statement (concrete witnesses) -/
-
 def strictDict : Overlay := { allowPublic := some false, allowSet := some false }
 def laxDict : Overlay := { allowAll := some true, allowSet := some true }
 def goodClassic : ClassicMode := { writesCallerDict := false, addsToSafe := [] }
 
+/-! #### servers: the server-side source of a connection's configuration
+
+`Server.protocol_config` is a dict object too: the one the caller gave (kept as is — documented sharing), or one the
+server makes for itself.  For every client the server builds `dict(self.protocol_config, ...)` and connects with that.
+Measured on real servers: two servers constructed without a `protocol_config` hold distinct objects. -/
+
+/-- **A server's configuration is its own.** In any history from the initial state, the dict object server `k` made
+for itself holds exactly what the application put there through `k` (or directly): constructing, editing, using and
+closing OTHER servers — before or after `k` was constructed — and every connection event leave it alone. -/
+theorem server_config_is_private (pre post : List HEvent) (k : Nat)
+    (h1 : ∀ e ∈ post, ∀ ov, e ≠ .editDict (.srv k) ov) (h2 : ∀ e ∈ post, ∀ ov, e ≠ .editServer k ov) :
+    (hrun Modes.measured (hrun Modes.measured HWorld.init pre) post).dicts (.srv k)
+      = (hrun Modes.measured HWorld.init pre).dicts (.srv k) := by
+  rw [measured_modes_are_good]
+  exact hrun_good_serverDict post _ k (hrun_good_srvInv pre _ srvInv_init) h1 h2
+
+/-- a server constructed without a `protocol_config` holds its own object; one constructed with the caller's dict
+holds that object -/
+theorem server_holds (w : HWorld) (k : Nat) (d : Option Nat) (h : w.servers k = none) :
+    (hstep Modes.measured w (.newServer k d)).servers k
+      = some (match d with | some n => .app n | none => .srv k) := by
+  rw [measured_modes_are_good]
+  cases d <;> simp [hstep, h, serverRef, Modes.good]
+
+/-- **A connection made by server `k` decides as `k`'s configuration says at that moment**: its own dict is the
+defaults updated with `k`'s `protocol_config` content (then classic overrides for a classic server) -/
+theorem server_connection_snapshot (w : HWorld) (i k : Nat) (classic : Bool) (r : Ref)
+    (hf : w.conns i = .fresh) (hs : w.servers k = some r) :
+    (hstep Modes.measured w (.serverConn i k classic)).conns i = .live [.own i]
+    ∧ (hstep Modes.measured w (.serverConn i k classic)).dicts (.own i)
+        = (if classic then ((w.dicts .dflt).update (w.dicts r)).update slaveDict
+           else (w.dicts .dflt).update (w.dicts r)) := by
+  rw [measured_modes_are_good]
+  simp [hstep, hf, hs, openConn_good_conns, openConn_good_dicts, goodOwnDict, setDict_other]
+
+/-- one dict shared by all servers constructed without a configuration (a mutable default argument): editing server
+1's configuration changes what a connection of server 2 — constructed LATER — allows -/
+theorem shared_server_default_breaks_isolation :
+    (hrun ⟨.copy, goodClassic, false⟩ HWorld.init
+        [.newServer 1 none, .editServer 1 laxDict, .newServer 2 none, .serverConn 5 2 false]).cfgOf 5
+    ≠ (hrun Modes.good HWorld.init
+        [.newServer 1 none, .editServer 1 laxDict, .newServer 2 none, .serverConn 5 2 false]).cfgOf 5 := by
+  decide
+
+/-! #### the variants that share state violate the statement (concrete witnesses) -/
+
+
 /-- `self._config = DEFAULT_CONFIG`: opening connection 2 with a lax dict changes what the strict connection 1 enforces -/
 theorem aliasDefault_breaks_isolation :
-    (hrun ⟨.aliasDefault, goodClassic⟩ HWorld.init
+    (hrun ⟨.aliasDefault, goodClassic, true⟩ HWorld.init
         [.editDict (.app 1) strictDict, .open 1 1 false, .editDict (.app 2) laxDict, .open 2 2 false]).cfgOf 1
-    ≠ (hrun ⟨.aliasDefault, goodClassic⟩ HWorld.init
+    ≠ (hrun ⟨.aliasDefault, goodClassic, true⟩ HWorld.init
         [.editDict (.app 1) strictDict, .open 1 1 false]).cfgOf 1 := by decide
 
 /-- a mapping that reads through: the application editing the dict it passed changes the open connection -/
 theorem layered_breaks_isolation :
-    (hrun ⟨.layered, goodClassic⟩ HWorld.init
+    (hrun ⟨.layered, goodClassic, true⟩ HWorld.init
         [.editDict (.app 1) strictDict, .open 1 1 false, .editDict (.app 1) laxDict]).cfgOf 1
-    ≠ (hrun ⟨.layered, goodClassic⟩ HWorld.init [.editDict (.app 1) strictDict, .open 1 1 false]).cfgOf 1 := by
+    ≠ (hrun ⟨.layered, goodClassic, true⟩ HWorld.init [.editDict (.app 1) strictDict, .open 1 1 false]).cfgOf 1 := by
   decide
 
 /-- the caller's dict object used as `_config`: same -/
 theorem aliasArg_breaks_isolation :
-    (hrun ⟨.aliasArg, goodClassic⟩ HWorld.init
+    (hrun ⟨.aliasArg, goodClassic, true⟩ HWorld.init
         [.editDict (.app 1) strictDict, .open 1 1 false, .editDict (.app 1) laxDict]).cfgOf 1
-    ≠ (hrun ⟨.aliasArg, goodClassic⟩ HWorld.init [.editDict (.app 1) strictDict, .open 1 1 false]).cfgOf 1 := by
+    ≠ (hrun ⟨.aliasArg, goodClassic, true⟩ HWorld.init [.editDict (.app 1) strictDict, .open 1 1 false]).cfgOf 1 := by
   decide
 
 /-- classic overrides written into the caller's dict: a plain connection opened later with the same dict object does
 not enforce what the application wrote (it would under the good variant) -/
 theorem classic_into_caller_dict_breaks_isolation :
-    (hrun ⟨.copy, ⟨true, []⟩⟩ HWorld.init
+    (hrun ⟨.copy, ⟨true, []⟩, true⟩ HWorld.init
         [.editDict (.app 1) strictDict, .open 1 1 true, .open 2 1 false]).cfgOf 2
     ≠ (hrun Modes.good HWorld.init [.editDict (.app 1) strictDict, .open 1 1 true, .open 2 1 false]).cfgOf 2 := by
   decide
 
 /-- a classic connect growing the shared default set object in place: connection 1, opened before, now allows `_x` -/
 theorem classic_growing_shared_set_breaks_isolation :
-    (hrun ⟨.copy, ⟨false, [[95, 120]]⟩⟩ HWorld.init [.open 1 1 false, .open 2 2 true]).cfgOf 1
-    ≠ (hrun ⟨.copy, ⟨false, [[95, 120]]⟩⟩ HWorld.init [.open 1 1 false]).cfgOf 1 := by decide
+    (hrun ⟨.copy, ⟨false, [[95, 120]]⟩, true⟩ HWorld.init [.open 1 1 false, .open 2 2 true]).cfgOf 1
+    ≠ (hrun ⟨.copy, ⟨false, [[95, 120]]⟩, true⟩ HWorld.init [.open 1 1 false]).cfgOf 1 := by decide
 
 /-- and in the code AS IT IS the default set object is shared: growing it in place (which rpyc never does — that is
 what `fair` excludes and `measured_modes_are_good` checks for the classic connect) reaches every open connection that
@@ -620,6 +665,15 @@ example : (hrun Modes.measured HWorld.init (historyPre ++ historyPost)).cfgOf 2
     ∧ (hrun Modes.measured HWorld.init (historyPre ++ historyPost)).cfgOf 4
         = some (applyOverlay (applyOverlay defaultConfig { allowAll := some true })
                   { allowPublic := some true, allowSet := some true, exposedPrefix := some [120] }) := by decide
+/-- two servers constructed without a configuration, the first edited afterwards, a third constructed later: a
+connection of server 2 and one of server 3 enforce the defaults, one of server 1 what server 1 was told -/
+def serverHistory : List HEvent :=
+  [.newServer 1 none, .newServer 2 none, .editServer 1 { allowPublic := some true, allowSet := some true },
+   .serverConn 5 2 false, .serverConn 6 1 false, .newServer 3 none, .serverConn 7 3 false]
+example : (hrun Modes.measured HWorld.init serverHistory).cfgOf 5 = some defaultConfig
+    ∧ (hrun Modes.measured HWorld.init serverHistory).cfgOf 7 = some defaultConfig
+    ∧ (hrun Modes.measured HWorld.init serverHistory).cfgOf 6
+        = some (applyOverlay defaultConfig { allowPublic := some true, allowSet := some true }) := by decide
 /-- the hypotheses of `isolation` are met by that history: every later event is fair, connection 2 is established -/
 example : (∀ e ∈ historyPost, e.fair = true)
     ∧ (hrun Modes.measured HWorld.init historyPre).conns 2 ≠ .fresh := by decide
